@@ -204,6 +204,12 @@ def n_index(ex, callee, a, env):
         return Ref(sl.buf, sl.start + i)
     sl = as_slice(base)
     st, en = _range_bounds(ex, callee, r, sl.len)
+    if sl.is_str and callee.startswith('<str as'):
+        # str slicing panics when a bound is not on a character boundary (the byte there is a UTF-8 continuation byte)
+        items = sl.items()
+        for pos in (st, en):
+            if 0 < pos < sl.len and ex.truth(in_range(items[pos], 0x80, 0xBF)):
+                raise Panic(f'byte index {pos} is not a char boundary')
     return Slice(sl.buf, sl.start + st, en - st, sl.is_str)
 
 
@@ -1708,6 +1714,8 @@ def n_chars_next(ex, callee, a, env):
         c = ((_z32(b0) & 0x0F) << 12) | (cont(1) << 6) | cont(2)
         it.pos += 3
         return Some(c)
+    if it.pos + 3 >= len(items):
+        raise Unsupported('str::chars on bytes that are not valid UTF-8 (a &str is valid by construction)')
     c = ((_z32(b0) & 0x07) << 18) | (cont(1) << 12) | (cont(2) << 6) | cont(3)
     it.pos += 4
     return Some(c)
